@@ -148,6 +148,17 @@ pub fn replay(cases: &str, verdicts: &str, refdir: Option<&String>) {
                 }
                 prev_row = got_row;
             }
+            "hugen" => {
+                // n beyond 32 bits: C(n, k) and, through the symmetry, C(n, n - k)
+                let n = big(&c["nB"]).unwrap() as u64;
+                let k0 = c["k"].as_u64().unwrap();
+                let k = if c["sym"].as_bool().unwrap() { n - k0 } else { k0 };
+                if c["fits"].as_bool().unwrap() {
+                    let e = big(&c["v"]).unwrap() as u64;
+                    let g = guard(|| binom_coeff(n, k));
+                    v.check(g == Some(e), "binom_coeff", &format!("n>2^32 k{}{}", k0, if c["sym"].as_bool().unwrap() { " mirrored" } else { "" }), &json!({"n": n.to_string(), "k": k.to_string(), "exact": e.to_string()}), json!(g.map(|g| g.to_string())));
+                }
+            }
             "bign" => {
                 if c["fits"].as_bool().unwrap() {
                     let (n, k) = (c["n"].as_u64().unwrap(), c["k"].as_u64().unwrap());
